@@ -25,7 +25,8 @@ def vmap(ms): return V("map", e=[{"k": k, "v": v} for k, v in ms], n=len(ms))
 
 RANGES = {"u8": (0, 255), "u16": (0, 65535), "u32": (0, 2**32 - 1), "u64": (0, 2**64 - 1), "usize": (0, 2**64 - 1),
           "i8": (-128, 127), "i16": (-2**15, 2**15 - 1), "i32": (-2**31, 2**31 - 1), "i64": (-2**63, 2**63 - 1), "isize": (-2**63, 2**63 - 1),
-          "NonZeroU8": (1, 255), "NonZeroI8": (-128, 127)}
+          "NonZeroU8": (1, 255), "NonZeroI8": (-128, 127), "u128": (0, 2**64 - 1), "i128": (-2**63, 2**64 - 1),
+          "NonZeroU16": (1, 65535), "NonZeroU64": (1, 2**64 - 1), "NonZeroI64": (-2**63, 2**63 - 1), "NonZeroI128": (-2**63, 2**64 - 1)}
 
 KEYPOOL = {"String": ["a", "b", "k", "key", "", "01"], "u8": ["0", "1", "7", "255"], "i32": ["-1", "0", "5", "12"],
            "bool": ["true", "false"], "char": ["a", "b", "z"]}
